@@ -51,6 +51,10 @@ void h_lemma(void)
   __CPROVER_assert(p ==> (alive == 1 && rel == 0), "lemma (a): a pending state has not been freed");
   __CPROVER_assert((p == 0 && h == 0) ==> (alive == 0 && rel == 1), "lemma (c): resolved and no handle left => the state has been released, exactly once");
   __CPROVER_assert((alive == 1 && p == 0) ==> c == h, "lemma: after resolution only handles keep the state alive");
+  /* the invariant admits every interesting final situation (non-vacuity) */
+  if (p == 1 && h == 0) __CPROVER_assert(0, "SENTINEL reachable: every handle dropped while the future is still pending (state alive)");
+  if (p == 0 && h == 0) __CPROVER_assert(0, "SENTINEL reachable: resolved, no handle left (state released)");
+  if (p == 0 && h >= 2) __CPROVER_assert(0, "SENTINEL reachable: resolved, several handles alive");
   __CPROVER_assert(0, "SENTINEL reachable: end of the reference lemma");
 }
 #endif
